@@ -47,7 +47,8 @@ REQUIRED_PROBES = {"quick": ["observer_before_last_mutation", "raw_value_object_
                              "caseless_duplicate_name", "permutation_moved_something", "amz_in_history",
                              "amz_added_two_or_more", "subtree_from_ical", "zoned_dateutil", "zoned_pytz",
                              "zoned_zoneinfo", "list_valued_parameter", "setter_barrier", "noise_parse", "noise_serialise",
-                             "mixed_zone_list", "constructed_from_mapping", "tzid_parameter_popped", "params_mutated_in_place", "property_deleted", "value_payload_mutated_in_place"]}
+                             "mixed_zone_list", "constructed_from_mapping", "tzid_parameter_popped", "parsed_value_params_mutated",
+                             "params_mutated_in_place", "property_deleted", "value_payload_mutated_in_place"]}
 REQUIRED_PROBES["thorough"] = REQUIRED_PROBES["quick"]
 
 KINDS = ["VEVENT", "VTODO", "VJOURNAL", "VFREEBUSY", "VTIMEZONE", "VALARM", "X-COMP"]
@@ -235,6 +236,7 @@ def generate(rng, cfg):
     nsteps = rng.randint(6, cfg.get("max_steps", 40))
     marker = 0
     zoned = set()        # (component, NAME) of date-time values that carry a zone
+    parsed_texts = []
     used_amz = False
     swarm = {"setters": rng.random() < 0.6, "raw": rng.random() < 0.6, "amz": rng.random() < 0.5,
              "from_ical": rng.random() < 0.4, "noise": rng.random() < 0.5, "setitem": rng.random() < 0.5,
@@ -268,6 +270,9 @@ def generate(rng, cfg):
             continue
         if r < 0.22 and swarm["from_ical"] and len(comps) < 12:
             text = rng.choice(FROM_ICAL_TEXTS)
+            if parsed_texts and rng.random() < 0.5:
+                text = rng.choice(parsed_texts)      # the same text again: two subtrees from identical lines
+            parsed_texts.append(text)
             parents = [c for c in comps if comps[c] in ("VCALENDAR", "X-COMP")]
             parent = rng.choice(parents)
             comps[nid] = "PARSED"
@@ -296,6 +301,12 @@ def generate(rng, cfg):
             continue
         if r < 0.46 and swarm["mutate"]:
             # mutation routes other than add(): edit a stored value's parameters in place, delete a property
+            parsed_now = [k for k in sorted(comps) if comps[k] == "PARSED"]
+            if parsed_now and rng.random() < 0.3:
+                # a parameter is written into a value of a parsed subtree: nothing else in the tree may change
+                trace.append([0, "mutate_parsed", {"comp": rng.choice(parsed_now), "param": f"X-MUT{len(trace)}",
+                                                   "v": f"v{len(trace)}"}])
+                continue
             cands = [k for k in sorted(comps) if comps[k] != "PARSED" and names_used.get(k)]
             zoned_now = sorted((k, n) for k, n in zoned if n in names_used.get(k, {}))
             if zoned_now and rng.random() < 0.3:
@@ -330,6 +341,8 @@ def generate(rng, cfg):
             trace.append([0, "setattr", {"comp": c, "attr": attr, "v": v}])
             continue
         name = rng.choice(PROP_MENU[kind])
+        if rng.random() < 0.008:
+            name = rng.choice(["BEGIN", "end", "Begin"])     # the library lets a property have the name of a delimiter
         U = name.upper()
         seen = names_used[c]
         if U in seen and U not in MULTI and rng.random() < 0.8:
@@ -390,7 +403,7 @@ def abstract_sig(run):
 # ---------------------------------------------------------------------------
 # permutations of the insertion history
 
-BARRIERS = ("setattr", "amz", "from_ical", "mutate_params", "del_prop", "mutate_value")
+BARRIERS = ("setattr", "amz", "from_ical", "mutate_params", "del_prop", "mutate_value", "mutate_parsed")
 
 
 def permute(trace, seed):
@@ -635,6 +648,25 @@ def run_variant(trace, res, with_observers, tag, stepbase=0, checks=True):
                     B.mutated.append(a["param"])
                 if checks:
                     res.probe("params_mutated_in_place")
+            elif op == "mutate_parsed":
+                comp = B.objs.get(a["comp"])
+                if comp is None:
+                    res.skipped += 1
+                    continue
+                target = None
+                for nm in sorted(comp.keys()):
+                    v = comp[nm]
+                    v = v[0] if isinstance(v, list) and v else v
+                    if hasattr(v, "params") and nm != "FREEBUSY":
+                        target = v
+                        break
+                if target is None:
+                    res.skipped += 1
+                    continue
+                target.params[a["param"]] = a["v"]
+                B.mutated.append(a["param"])
+                if checks:
+                    res.probe("parsed_value_params_mutated")
             elif op == "mutate_value":
                 # edit the payload of a stored value in place (public attributes of the value objects)
                 comp = B.objs.get(a["comp"])
@@ -786,9 +818,13 @@ def _observe(res, stepno, comp, sorted_flag, B, tag):
     if b1 != b2:
         res.violate("C10/determinism/second-call-differs", stepno, f"{b1[:200]!r} vs {b2[:200]!r}")
     if not balanced(b1):
-        res.violate("C10/balanced", stepno, b1[:300])
+        res.violate("C10/balanced" + _DELIM["sig"], stepno, b1[:300])
     res.observe(stepno, f"observe:{tag}", [sorted_flag, digest(b1.decode('utf-8', 'replace'))])
     return b1
+
+
+# set per run: "" or the suffix that classifies an unbalanced output of a tree with a property named BEGIN / END
+_DELIM = {"sig": ""}
 
 
 def _first_diff(a, b, path=""):
@@ -820,6 +856,10 @@ def _diff_kind(a, b):
 def execute(run, res):
     trace = run["trace"]
     provider = run["cfg"].get("provider", "zoneinfo")
+    delim = any(s[1] in ("add", "setitem") and s[2]["name"].upper() in ("BEGIN", "END") for s in trace)
+    _DELIM["sig"] = "/property-named-begin-or-end" if delim else ""
+    if delim:
+        res.probe("property_named_like_a_delimiter")
     # --- A: with observers ---------------------------------------------------
     world.reset_world(provider)
     A = run_variant(trace, res, True, "A")
@@ -904,7 +944,7 @@ def _final(res, stepno, root, B, tag, check_model):
         res.violate("C10/determinism/second-call-differs", stepno, "final")
     for data, flag in ((bs, True), (bu, False)):
         if not balanced(data):
-            res.violate("C10/balanced", stepno, data[:300])
+            res.violate("C10/balanced" + _DELIM["sig"], stepno, data[:300])
             return None
     if check_model:
         _check_wire(res, stepno, bs, bu, B)
@@ -927,7 +967,7 @@ def _check_wire(res, stepno, bs, bu, B):
     for data, sorted_flag in ((bs, True), (bu, False)):
         tree = wire_tree(data)
         if tree is None or len(tree[2]) != 1:
-            res.violate("C10/balanced", stepno, "not a single balanced tree")
+            res.violate("C10/balanced" + _DELIM["sig"], stepno, "not a single balanced tree")
             return
         stack = [(tree[2][0], 0)]
         while stack:
